@@ -38,9 +38,9 @@ def run(ctx):
     # E4 + E3 --------------------------------------------------------------------------------
     rng = random.Random(ctx.seed)
     nq, npool = (60, 60) if thorough else (10, 8)
-    progs_q = [fc.gen.MC['three'], fc.gen.MC['exc']] + [fc.gen.random_program(rng, 'q') for _ in range(nq)]
+    progs_q = [fc.gen.MC['three'], fc.gen.MC['exc']] + [fc.gen.MC['wany1']] * 3 + [fc.gen.random_program(rng, 'q') for _ in range(nq)]
     progs_p = [fc.gen.random_program(rng, 'pool') for _ in range(npool)]
-    ctx.sample({'programs': progs_q[2:4] + progs_p[:3]})
+    ctx.sample({'programs': progs_q[5:7] + progs_p[:3]})
     tr = fc.run_and_validate(ctx, exe, progs_p + progs_q, WHAT,
                              'random programs: real ThreadPool TaskSet NewThreadInvoker | manual queue ImmediateInvoker',
                              n=8 if thorough else 3, seed=ctx.seed, pct=3, spurious=True, fixed=fixed)[0]
